@@ -16,7 +16,12 @@ channel, incl. those whose weight is longer than the channel (regression guard f
 fixed in /repo 9bccfb4); gamma_values re-configured on a live estimator (attribute assignment,
 `params['gamma_values']` replaced or mutated in place, `set_params`; before the first training, between two
 fits, between two partial_fits): every activation computed while and after training is the sum of
-(reported gamma) * module activation, and the clustering equals that of a twin holding the same vector."""
+(reported gamma) * module activation, and the clustering equals that of a twin holding the same vector;
+the last bit (oracle_ulp): decimal gammas (0.3/0.7, 0.2/0.3/0.5, ...), decimal-grid data, decimal alpha / rho and rows sought so
+that the two best categories tie exactly or within a few ulp: every fused activation computed while training / predicting
+equals, bit for bit, the Python sum of the rounded products gamma_k * (module k's own category_choice), and a channel
+permutation under which the float sum is the same double (two channels; the first two of more) leaves labels, predictions on
+the tie rows and per-channel weights unchanged, tied decisions included."""
 from __future__ import annotations
 
 import operator
@@ -955,6 +960,364 @@ def oracle_regamma(ctx, N, nmax):
             cov.sample({"regamma": cls, "gamma": [g0, g1], "route": route, "moment": moment, "labels": sf[0]})
 
 
+# ------------------------------------------------------------------ oracle: the weighted sum at the last bit, ties
+#
+# The clauses above run on dyadic gammas / grid data (every float operation exact) or set float-ambiguous decisions
+# aside.  Here nothing is exact: decimal gammas (0.3/0.7, 0.2/0.3/0.5, ...), decimal-grid data, decimal alpha / rho, and
+# the generator *seeks* rows for which the two best categories tie exactly or within a few ulp (it scans the grid with
+# the public `category_choice` of a model trained on the rows drawn so far), so that the last bit of the fused
+# activation decides a label.  What the statement says there, executed on the implementation:
+#   * "its activation is the gamma-weighted sum of the channel activations": every fused activation computed while
+#     training and predicting is, bit for bit, the float sum of the products gamma_k * (module k's own
+#     `category_choice`) — each product rounded, then added (left to right as the source does; any other order of the
+#     additions is accepted as well: with two channels they all coincide);
+#   * "permuting the channels together with their gamma values and widths does not change the clustering": with two
+#     channels, or when the permutation only swaps the first two channels, float addition being commutative the fused
+#     activations of the two models are the same doubles, so labels, predictions on the tie rows and per-channel weights
+#     must agree *including* the tied decisions.  A permutation that changes the order of the additions of >= 3 terms is
+#     reported under its own signature (the float sum is then order dependent in the last bit).
+
+DEC_GAMMAS = {
+    2: [[0.3, 0.7], [0.7, 0.3], [0.4, 0.6], [0.1, 0.9], [0.2, 0.8], [0.35, 0.65], [0.45, 0.55]],
+    3: [[0.2, 0.3, 0.5], [0.5, 0.3, 0.2], [0.3, 0.2, 0.5], [0.1, 0.3, 0.6], [0.2, 0.2, 0.6], [0.3, 0.3, 0.4], [0.1, 0.2, 0.7]],
+    4: [[0.1, 0.2, 0.3, 0.4], [0.4, 0.3, 0.2, 0.1], [0.2, 0.2, 0.3, 0.3], [0.1, 0.1, 0.3, 0.5]],
+}
+
+
+def float_sums(prods):
+    """every double a float sum of the given (already rounded) products can be: Python's builtin `sum` (compensated for
+    exact floats since 3.12, plain `+` for numpy scalars: the objects are kept as the modules returned them) and the
+    plain left-to-right `+`, over every order of the terms; pairwise for four terms; the correctly rounded sum"""
+    import functools
+    import itertools
+    import math
+    out = set()
+    for p in itertools.permutations(list(prods)):
+        out.add(float(sum(list(p))))
+        out.add(functools.reduce(operator.add, [float(t) for t in p], 0.0))
+    fl = [float(t) for t in prods]
+    if len(fl) == 4:
+        a, b, c, d = fl
+        out |= {(a + b) + (c + d), (a + c) + (b + d), (a + d) + (b + c)}
+    out.add(math.fsum(fl))
+    return out
+
+
+class RawLog:
+    """every fused activation computed while `on`, together with the very objects the modules' own category_choice
+    returned for it (numpy scalars or Python floats: Python's `sum` treats them differently in the last bit)"""
+
+    def __init__(self, f):
+        self.on = False
+        self.calls = []        # (x, w, T, [(channel, module activation)], skipped channels)
+        self._terms = None
+        log = self
+        for k_, m in enumerate(f.modules):
+            def cc(i, w, params, _o=m.category_choice, _k=k_):
+                T, c = _o(i, w, params)
+                if log._terms is not None:
+                    log._terms.append((_k, T))
+                return T, c
+            object.__setattr__(m, "category_choice", cc)
+        inner = f.category_choice
+
+        def category_choice(i, w, params, **kw):
+            outer, log._terms = log._terms, []
+            try:
+                T, c = inner(i, w, params, **kw)
+                terms = log._terms
+            finally:
+                log._terms = outer
+            if log.on:
+                log.calls.append((np.array(i, dtype=float), np.array(w, dtype=float), T, terms, list(kw.get("skip_channels") or [])))
+            return T, c
+        object.__setattr__(f, "category_choice", category_choice)
+
+
+def same_double(a: float, b: float) -> bool:
+    return (a != a and b != b) or (a == b and np.signbit(a) == np.signbit(b))
+
+
+def ulp_spec(r, c, d):
+    if c == "FuzzyART":
+        rho = r.choice([0.0, 0.3, 0.5, 0.6, 0.7, 0.8])
+        # rho = 0 with alpha = 0 is outside the property's standing assumption (a weight may collapse to zero: 0/0)
+        alpha = r.choice([0.0, 0.01, 0.001, 0.1, 1e-10, 0.01] if rho > 0 else [0.01, 0.001, 0.1, 1e-10])
+        return {"cls": c, "rho": rho, "alpha": alpha, "beta": r.choice([1.0, 1.0, 1.0, 0.5])}
+    return {"cls": c, "rho": r.choice([0.0, 0.3, 0.5, 0.8]), "alpha": r.choice([0.0, 0.01, 0.1]), "beta": r.choice([1.0, 1.0, 0.5])}
+
+
+def enc_rows(cls, J, den):
+    """index rows (one list of grid indices per channel) -> data rows: value j/den, complement coded for FuzzyART"""
+    cols = []
+    for kk, c in enumerate(cls):
+        raw = np.array([[j / den for j in row[kk]] for row in J], dtype=float).reshape(len(J), -1)
+        cols.append(gen.cc(raw) if c == "FuzzyART" else raw)
+    return np.hstack(cols)
+
+
+def rand_row(r, ds, den, pools=None):
+    return [[r.choice(pools[kk]) if pools and pools[kk] else r.randint(0, den) for _ in range(d)] for kk, d in enumerate(ds)]
+
+
+def twin_family(r, cls, ds, den, pools, sp):
+    """two founders that agree in every channel but one, where they sit symmetrically around a third value, and probes
+    at that centre: in exact arithmetic a probe is equally close to both founders (the example of the statement's
+    weighted sum: overlaps 0.7 and 0.4+0.3), in floats equal or one ulp apart.  Where the grid allows, the founders are
+    too far apart for that channel's vigilance to merge them and the centre is close enough to resonate with either."""
+    fz = [kk for kk, c in enumerate(cls) if c == "FuzzyART" and sp[kk]["rho"] > 0] or \
+         [kk for kk, c in enumerate(cls) if c == "FuzzyART"]
+    kb = r.choice(fz) if fz else r.randrange(len(cls))
+    slack = (1.0 - sp[kb]["rho"]) * den          # founders farther apart than this do not merge (FuzzyART, one column)
+    base = rand_row(r, ds, den, pools)
+    j1 = [r.randint(0, den) for _ in range(ds[kb])]
+    j2 = []
+    for t in j1:
+        same = [v for v in range(den + 1) if v % 2 == t % 2 and v != t] or [t]
+        good = [v for v in same if slack < abs(v - t) <= 2 * slack]
+        j2.append(r.choice(good if good and r.random() < 0.85 else same))
+    mid = [(a + b) // 2 for a, b in zip(j1, j2)]
+    out = []
+    for jb in (j1, j2):
+        row = deepcopy(base)
+        row[kb] = list(jb)
+        out.append(row)
+    for _ in range(r.randint(1, 2)):
+        row = deepcopy(base) if r.random() < 0.6 else rand_row(r, ds, den, pools)
+        row[kb] = list(mid)
+        out.append(row)
+    return out
+
+
+def centre_rows(r, J, ds, den, m):
+    """m index rows built from pairs of rows already drawn: channel by channel the centre of the two (where the grid has
+    one), else the value of the first"""
+    out = []
+    for _ in range(m):
+        a, b = r.choice(J), r.choice(J)
+        out.append([[(u + v) // 2 if (u + v) % 2 == 0 else u for u, v in zip(a[kk], b[kk])] if r.random() < 0.7 else list(a[kk])
+                    for kk in range(len(ds))])
+    return out
+
+
+def tie_rows(f, log, cands, r, ulps=4):
+    """rows of `cands` for which the two largest fused activations of the trained `f` are within `ulps` ulp although
+    they are summed from different module activations (found with the public category_choice only);
+    returns (rows with an exact tie, rows with a near tie)"""
+    import math
+    W = f.W
+    if len(W) < 2:
+        return [], []
+    exact, near = [], []
+    with quiet():
+        for x in cands:
+            T = []
+            for w in W:
+                f.category_choice(x, w, f.params)
+                T.append(log.last)
+            live = sorted((t for t in T if t[0] == t[0]), reverse=True)
+            if len(live) < 2:
+                continue
+            (a, ta), (b, tb) = live[0], live[1]
+            if ta == tb:
+                continue            # the same activations channel by channel: no rounding can tell them apart
+            if a == b:
+                exact.append(x)
+            elif a - b <= ulps * math.ulp(a):
+                near.append(x)
+    r.shuffle(exact)
+    r.shuffle(near)
+    return exact, near
+
+
+def tied_decisions(calls, ulps=4):
+    """(exact, near): arg-max decisions (consecutive activations of one presented row) whose two best categories are
+    equal / within `ulps` ulp although summed from different module activations"""
+    import math
+    exact = near = 0
+    groups, key = [], None
+    for x, w, T, terms, skipped in calls:
+        kx = (x.tobytes(), tuple(skipped))
+        if kx != key:
+            groups.append([])
+            key = kx
+        groups[-1].append((float(T), tuple(float(a) for _, a in terms)))
+    for g in groups:
+        live = sorted((t for t in g if t[0] == t[0]), reverse=True)
+        if len(live) < 2 or live[0][1] == live[1][1]:
+            continue
+        a, b = live[0][0], live[1][0]
+        if a == b:
+            exact += 1
+        elif a - b <= ulps * math.ulp(a):
+            near += 1
+    return exact, near
+
+
+def oracle_ulp(ctx, N, nmax, NC=24):
+    cov = ctx.cov
+    for i in range(N):
+        r = gen.rng_for(ctx.seed, "C10-ulp", i)
+        k = r.choice([2, 2, 2, 3, 3, 4])
+        cls = [r.choice(["FuzzyART", "FuzzyART", "FuzzyART", "ART2A"]) for _ in range(k)]
+        ds = [2 if c == "ART2A" else r.choice([1, 1, 1, 2]) for c in cls]
+        sp = [ulp_spec(r, c, d) for c, d in zip(cls, ds)]
+        dims = [specs.width(c, d) for c, d in zip(cls, ds)]
+        den = r.choice([10, 10, 10, 5, 20])
+        if r.random() < 0.5:
+            perm = [1, 0] + list(range(2, k))
+        else:
+            perm = list(range(k))
+            while perm == list(range(k)):
+                r.shuffle(perm)
+        gam = next(g for g in (list(r.choice(DEC_GAMMAS[k])) for _ in range(50))
+                   if sum(g) == 1.0 and sum(g[j] for j in perm) == 1.0)
+        commutes = k == 2 or perm[2:] == list(range(2, k))     # only the first two terms change places: same doubles
+        mode = r.choice(MODES)
+        eps = r.choice([0.0, 0.0, 1e-10, 0.001])
+        # rows are drawn as grid indices: a few random rows, then "twin" families (see twin_family), lightly shuffled;
+        # some channels take few distinct values (categories then share a channel weight)
+        pools = [r.choice([None, None, 2, 3]) for _ in range(k)]
+        pools = [r.sample(range(den + 1), p) if p else None for p in pools]
+        J = [rand_row(r, ds, den, pools) for _ in range(r.randint(0, 2))]
+        for _ in range(r.randint(1, 3)):
+            fam = twin_family(r, cls, ds, den, pools, sp)
+            J += fam[:2]
+            for row in fam[2:]:
+                J.insert(r.randint(len(J) - (1 if r.random() < 0.3 else 0), len(J)), row)
+            if r.random() < 0.5:
+                J.append(rand_row(r, ds, den, pools))
+        J = J[:max(4, nmax - 3)]
+        X = enc_rows(cls, J, den)
+        spec = fusion_spec(sp, dims, gam)
+        kw = dict(match_reset_func=None, match_tracking=mode, epsilon=eps)
+        # --- seek rows on which the last bit decides: train on the rows drawn, scan grid rows and centres of pairs of
+        # drawn rows with the public category_choice, append one exact and one near tie, train on, scan again
+        n_exact = n_near = 0
+        ties = []
+        try:
+            f = make(spec)
+            alog = ActLog(f)
+            with quiet(), time_limit(20):
+                f.fit(X, **kw)
+            for _ in range(2):
+                cands = enc_rows(cls, [rand_row(r, ds, den) for _ in range(NC // 3)] + centre_rows(r, J, ds, den, NC), den)
+                ex, nr = tie_rows(f, alog, cands, r)
+                n_exact, n_near = n_exact + len(ex), n_near + len(nr)
+                ties += ex + nr
+                got = (nr[:1] + ex[:1]) if r.random() < 0.5 else (ex[:1] + nr[:1])
+                if not got:
+                    continue
+                B = np.array(got, dtype=float)
+                X = np.vstack([X, B])
+                with quiet(), time_limit(20):
+                    f.partial_fit(B, **kw)
+            r.shuffle(ties)
+            ties = ties[:16]
+        except Exception as e:
+            ctx.issue("violation", f"FusionART.fit:{exc_enum(e)}", f"training raised {e!r} ({cls}, gamma {gam})",
+                      {"spec": spec, "mode": mode, "eps": eps, "X": X})
+            continue
+        n = len(X)
+        off = np.cumsum([0] + dims)
+        Xc = [X[:, off[j]:off[j + 1]] for j in range(k)]
+        Q = np.vstack([X] + ([np.array(ties, dtype=float)] if ties else []))
+        Qc = [Q[:, off[j]:off[j + 1]] for j in range(k)]
+        rep = {"classes": cls, "specs": sp, "dims": dims, "gamma": gam, "perm": perm, "mode": mode, "eps": eps,
+               "X": X, "queries": Q, "tie_rows": np.array(ties, dtype=float) if ties else None}
+        runs, failed = [], False
+        bad = None
+        n_other_order = d_exact = d_near = 0
+        for order in (list(range(k)), perm):
+            g_o = [gam[j] for j in order]
+            spec_o = fusion_spec([sp[j] for j in order], [dims[j] for j in order], g_o)
+            X_o = np.hstack([Xc[j] for j in order])
+            Q_o = np.hstack([Qc[j] for j in order])
+            rr = gen.rng_for(ctx.seed, "C10-ulp-b", i)
+            try:
+                f = make(spec_o)
+                log = RawLog(f)
+                log.on = True
+                train(f, X_o, rr, mode, eps, None)
+                with quiet():
+                    pred = [int(t) for t in f.predict(Q_o)]
+                    if k > 2:      # withheld channels count 1.0 * their gamma
+                        sk_ = sorted(rr.sample(range(k), rr.randint(1, k - 1)))
+                        f.predict(Q_o[: 4], skip_channels=list(sk_))
+                log.on = False
+            except Exception as e:
+                ctx.issue("violation", f"FusionART.fit:{exc_enum(e)}", f"training / predicting raised {e!r}", dict(rep, order=order))
+                failed = True
+                break
+            runs.append(([int(t) for t in f.labels_], pred,
+                         [[np.asarray(w, dtype=float) for w in f.modules[order.index(j)].W] for j in range(k)]))
+            if order == list(range(k)):
+                d_exact, d_near = tied_decisions(log.calls)
+            # every activation computed = float sum of the rounded products gamma_k * module activation
+            g_held = f.params["gamma_values"]
+            for x, w, T, terms, skipped in log.calls:
+                acts = [1.0] * k
+                for j, a in terms:
+                    acts[j] = a
+                if len(terms) + len(skipped) != k:
+                    continue
+                prods = [a * g_held[j] for j, a in enumerate(acts)]
+                want = float(sum(prods))
+                if same_double(float(T), want):
+                    continue
+                if any(same_double(float(T), v) for v in float_sums(prods)):
+                    n_other_order += 1
+                    continue
+                if bad is None:
+                    bad = (order, [float(t) for t in g_held], x, w, float(T), [float(a) for a in acts], want, skipped)
+            cov.hit("ulp:activations-compared-bitwise")
+        if failed:
+            continue
+        ncat = len(runs[0][2][0])
+        cov.case((cls, sp, dims, gam, X.tolist(), perm, mode, eps), ncat >= 2)
+        cov.hit(f"ulp:channels={k}")
+        if n_exact:
+            cov.hit("ulp:sought:exact-tie-of-the-two-best-categories")
+        if n_near:
+            cov.hit("ulp:sought:two-best-categories-within-4-ulp")
+        if d_exact:
+            cov.hit("ulp:decided:exact-tie-of-the-two-best-categories(different-module-activations)")
+        if d_near:
+            cov.hit("ulp:decided:two-best-categories-within-4-ulp")
+        if ties:
+            cov.hit("ulp:tie-row-trained-and-queried")
+        if any(s["alpha"] != 0.0 for s in sp):
+            cov.hit("ulp:non-zero-alpha")
+        if n_other_order:
+            cov.hit("ulp:sum-equals-another-order-of-additions")
+        if bad:
+            order, g, x, w, T, terms, ltr, skipped = bad
+            ctx.issue("violation", "FusionART.category_choice:!=float-sum-of-gamma*module-choice(last-bit)",
+                      f"channels in order {order}, gamma {g}: category_choice {T!r} ({T.hex()}) vs Python sum of the products "
+                      f"gamma_k * module activation {ltr!r} ({ltr.hex()}); module activations {terms} (withheld: {skipped}); "
+                      f"no order of the additions of the rounded products gives the reported value",
+                      dict(rep, order=order, x=x, w=w, skip=skipped))
+        differs = None
+        if runs[0][0] != runs[1][0]:
+            differs = f"labels {runs[0][0]} vs {runs[1][0]}"
+        elif runs[0][1] != runs[1][1]:
+            differs = f"predictions on the training and tie rows {runs[0][1]} vs {runs[1][1]}"
+        elif any(not same_W(a, b) for a, b in zip(runs[0][2], runs[1][2])):
+            differs = "same labels, different per-channel weights"
+        if commutes:
+            cov.hit("ulp:perm-compared-with-ties" + (":2-channels" if k == 2 else ":swap-first-two"))
+            if differs:
+                ctx.issue("violation", "FusionART:channel-permutation-changes-clustering(tie-of-fused-activations)",
+                          f"gamma {gam}, channels permuted by {perm} (only the first two terms of the sum change places): {differs}", rep)
+        else:
+            cov.hit("ulp:perm-reorders-additions(>=3-channels)")
+            if differs:
+                ctx.issue("violation", "FusionART:channel-permutation-changes-clustering(>=3-channels,order-of-float-additions)",
+                          f"gamma {gam}, channels permuted by {perm}: {differs}", rep)
+        if i < 2:
+            cov.sample({"ulp": cls, "gamma": gam, "perm": perm, "tied_decisions": [d_exact, d_near], "labels": runs[0][0]})
+
+
 GEN_THEOREMS = ['fusion_positions', 'fusion_category_choice', 'fusion_match_criterion_bin', 'fusion_match_criterion_bin_none', 'fusion_match_bin_model', 'fusion_update', 'fusion_update_none', 'fusion_new_weight', 'fusion_add_weight', 'fusion_set_weight', 'fusion_add_weight_model', 'fusion_set_weight_model', 'fusion_match_tracking', 'fusion_W_get', 'fusion_W_get_model']
 
 
@@ -971,7 +1334,9 @@ def prepare(ctx):
 def run(ctx):
     ctx.assumptions += [
         "float rounding of the gamma-weighted sum is not modelled: histories whose two closest distinct activations "
-        "differ by < 1e-9 (relative) are counted and excluded from the label comparison",
+        "differ by < 1e-9 (relative) are counted and excluded from the label comparison with the model and from the "
+        "dyadic permutation clause; oracle_ulp compares exactly those decisions on the implementation alone (the fused "
+        "activation bit for bit with the float sum of the rounded products; the permuted twin with ties included)",
         "every module's weight vector has a constant length (Chan.wlen, true of all artlib modules); the model "
         "cuts fused weights at the positions derived from these lengths, as the code does since 9bccfb4",
     ]
@@ -980,3 +1345,4 @@ def run(ctx):
     oracle_single(ctx, ctx.scale(320, 3000), ctx.scale(12, 40))
     oracle_perm(ctx, ctx.scale(400, 3500), ctx.scale(12, 40))
     oracle_regamma(ctx, ctx.scale(240, 2000), ctx.scale(12, 40))
+    oracle_ulp(ctx, ctx.scale(200, 2500), ctx.scale(12, 24))
